@@ -543,6 +543,9 @@ def c19_drivers(tier, seed):
                 for m in (1, 2, 3):
                     for d in (-2, -1, 0, 1, 2):
                         targets.add(m * page + d)
+                        # ... and allocated() itself (prefix included) around the page multiples
+                        if m * page - reserved + d > 0:
+                            targets.add(m * page - reserved + d)
                 for dm in range(0, 14):
                     targets.add((dm // 4) * page + model_rem[dm % 4])
                 for _ in range(8 if tier == "quick" else 40):
